@@ -235,6 +235,32 @@ def gibbs_alignment(chk, r, cc, fi):
         w = pads[0].args[1]
         if w.kind in (K_TUPLE, K_LIST) and w.items and len(w.items) == 2:
             emb, where = w.items[0].sym, pads[0]
+    if len(ss) == 1 and emb is not None:
+        # the window the record is stored into lies inside the padded buffer for every record length: 0 <= offset and offset + n <= buffer
+        # length (constant folding of the three symbolic integers over sample lengths; a slice that runs past the end of a NumPy array is
+        # silently clipped, and the store then raises or truncates the record)
+        from ..values import eval_linexpr, free_atoms
+        base_ = ss[0].base
+        blen = base_.shape[0] if (base_ is not None and base_.shape is not None and len(base_.shape) == 1) else None
+        if blen is not None:
+            try:
+                fa_ = free_atoms(LinExpr(emb)) | free_atoms(LinExpr(blen))
+            except ValueError:
+                fa_ = None
+            wit, unk = None, fa_ is None or not fa_ <= {"n"}
+            if not unk:
+                for n_ in list(range(2, 70)) + [100, 127, 128, 129, 255, 256, 257, 1000, 1023, 1024, 1025, 4683, 4684]:
+                    try:
+                        o_, b_ = eval_linexpr(LinExpr(emb), {"n": n_}), eval_linexpr(LinExpr(blen), {"n": n_})
+                    except Exception:
+                        unk = True
+                        break
+                    if o_ < 0 or o_ + n_ > b_:
+                        wit = "n=%d: offset %s, buffer length %s" % (n_, o_, b_)
+                        break
+            chk.ob("R-BP-LEN", cc + ".window in bounds", "the record's window [offset, offset + n) lies inside the padded buffer for every record length",
+                   wit is None and not unk, derived=("offset %r, buffer length %r" % (emb, blen)) + (" -- %s" % wit if wit else ""),
+                   loc=ss[0].loc, stmt=ss[0].stmt, inconclusive=unk and wit is None)
     if emb is None or crop is None:
         chk.ob("R-BP-LEN", cc + ".alignment", "the offset of the record in the padded buffer is located", False,
                derived="%d slice store(s), %d concatenate(s), %d np.pad of the record; offset not derived" % (len(ss), len(cats), len(pads)),
